@@ -520,6 +520,9 @@ OrderFlow(s, s2, o2, d) ==                                   \* expected change 
   IN (IF isNew /\ d = od THEN -(o2.offer + Reserve(par, o2)) ELSE 0)
      + (IF ~isNew /\ d = dd THEN o2.recv - o1.recv ELSE 0)
      + (IF ~isNew /\ Live(o1) /\ ~Live(o2) /\ d = od THEN Settled(par, o2) ELSE 0)
+(* users whose balance also moved for pool / request reasons in the step are outside the order ledger *)
+ReqTouched(s, s2, u) == \E r \in s2.reqs : r.owner = u /\ r \notin s.reqs
+PoolAct(an, args, u) == an \in {"CreatePool", "CreateRangedPool", "DepositAndFarm", "UnfarmAndWithdraw", "Deposit"} /\ args.u = u
 OrdersOfOwner(s2, u) == {o \in s2.orders : o.owner = u}
 C07OwnerFlow(s, s2, u, d) == SumF([o \in OrdersOfOwner(s2, u) |-> OrderFlow(s, s2, o, d)], OrdersOfOwner(s2, u))
 =============================================================================
